@@ -784,6 +784,12 @@ func (a *Analysis) ruleF3() {
 					}
 					n++
 					want := "read(val:" + R.Name() + ")"
+					if b.HasVal && b.LenKnown && b.Src != want && fromSourceOnly(e, b.Val, 0) && holdsAllOf(b.Val, "E", 8*int64(W/3*4)) {
+						// a private buffer made of the bytes read — all of them, in one piece — and
+						// of digests of those bytes (ENT ‖ checksum byte): nothing but the source goes
+						// in; what is done with it is the layout rules' business (L1n)
+						continue
+					}
 					if !b.HasVal || b.Src != want || !b.LenKnown || !b.Val.Equal(SymL("E", 8*b.Len.A)) {
 						r.Bad("F3c", fk+"/encoder-input", a.P.InstrPos(c.Instr), ctx.Name, "the encoder consumes %v, not exactly the bytes delivered by the source", b)
 						okC = false
@@ -806,6 +812,40 @@ func (a *Analysis) ruleF3() {
 	}
 	sort.Strings(weak)
 	r.OK("F3f", "imports", "-", "", "cross-reference: non-test files import %v from {math/rand, math/rand/v2, time}", weak)
+}
+
+// fromSourceOnly: every symbolic field of l is a piece of the bytes read from the source
+// ("E") or of a digest of bytes that are themselves made of such pieces only.
+func fromSourceOnly(e *Eval, l Layout, depth int) bool {
+	if depth > 3 {
+		return false
+	}
+	for _, f := range l.Norm() {
+		switch {
+		case f.Sym == "" || f.Sym == "E":
+		default:
+			d, ok := e.Digests[f.Sym]
+			if !ok || len(d.Writes) == 0 {
+				return false
+			}
+			for _, w := range d.Writes {
+				if !w.HasVal || !fromSourceOnly(e, w.Val, depth+1) {
+					return false
+				}
+			}
+		}
+	}
+	return true
+}
+
+// holdsAllOf: l has one field that is the whole of symbol sym, bits wide (from its bit 0 up).
+func holdsAllOf(l Layout, sym string, bits int64) bool {
+	for _, f := range l.Norm() {
+		if f.Sym == sym && !f.HasIdx && f.W.Const() && f.W.A == bits && f.Lo.Const() && f.Lo.A == 0 {
+			return true
+		}
+	}
+	return false
 }
 
 func hasMethod(it *types.Interface, name string) bool {
